@@ -3,6 +3,7 @@ package c13
 import (
 	"fmt"
 	"runtime"
+	"runtime/debug"
 	"unsafe"
 
 	"gopkg.in/typ.v4/slices"
@@ -71,6 +72,9 @@ func runGC[S ~[]E, E any](k *kind[E], c Case, front, spare int, out *pbt.Outcome
 		out.Labels = append(out.Labels, "gc-mode-needs-real-elements")
 		return "", 0
 	}
+	// a piece that is not part of the input may be arbitrary memory: reading through pointers found there must
+	// end as a panic (reported as a violation by pbt), not as the death of the process
+	defer debug.SetPanicOnFault(debug.SetPanicOnFault(true))
 	const off = 17
 	total := front + n + spare
 	count := gcAllocs[E](total, c.Var)
@@ -83,6 +87,8 @@ func runGC[S ~[]E, E any](k *kind[E], c Case, front, spare int, out *pbt.Outcome
 		return fmt.Sprintf("%s on an input that only the callee refers to (built inside the call expression), garbage collection + %d allocations of the input's size inside callback %d: %s", fn, count, at, fn)
 	}
 	nt := false
+	// Fn in this mode: c, w, p = the phase with ChunkFunc / WindowedFunc / PairsFunc, R = the phase with the three
+	// slice-returning functions; "" = all four phases (one collection per phase)
 	on := func(letter string) bool { return c.Fn == "" || containsByte(c.Fn, letter[0]) }
 
 	if cnt := chunkCount(n, size); cnt > 0 && on("c") {
@@ -137,36 +143,26 @@ func runGC[S ~[]E, E any](k *kind[E], c Case, front, spare int, out *pbt.Outcome
 		}
 	}
 	// the slice-returning variants: the results are looked at after the collection and the allocations
-	{
-		var r, w []S
-		var p [][2]E
-		if on("c") {
-			r = slices.Chunk(buildTemp[S](k, front, n, spare, off), size)
-		}
-		if on("w") {
-			w = slices.Windowed(buildTemp[S](k, front, n, spare, off), size)
-		}
-		if on("p") {
-			p = slices.Pairs(buildTemp[S](k, front, n, spare, off))
-		}
+	if on("R") {
+		r := slices.Chunk(buildTemp[S](k, front, n, spare, off), size)
+		w := slices.Windowed(buildTemp[S](k, front, n, spare, off), size)
+		p := slices.Pairs(buildTemp[S](k, front, n, spare, off))
 		keep = churn[S](k, total, count)
 		ctx := fmt.Sprintf("result of a call on an input that only the callee referred to, looked at after a garbage collection + %d allocations of the input's size: ", count)
-		if on("c") {
-			if m := e.checkChunks(ctx+"Chunk", base, n, size, r); m != "" {
-				return m, e.evals
-			}
+		if m := e.checkChunks(ctx+"Chunk", base, n, size, r); m != "" {
+			return m, e.evals
 		}
-		if on("w") {
-			if m := e.checkWindows(ctx+"Windowed", base, n, size, w); m != "" {
-				return m, e.evals
-			}
+		if m := e.checkWindows(ctx+"Windowed", base, n, size, w); m != "" {
+			return m, e.evals
 		}
-		if on("p") {
-			if m := e.checkPairs(ctx+"Pairs", base, n, p); m != "" {
-				return m, e.evals
-			}
+		if m := e.checkPairs(ctx+"Pairs", base, n, p); m != "" {
+			return m, e.evals
 		}
 		runtime.KeepAlive(keep)
+		nt = nt || n >= 1
+	}
+	if c.Fn != "" {
+		out.Labels = append(out.Labels, "phases:"+c.Fn)
 	}
 	out.NonTrivial = nt
 	if nt {
@@ -349,26 +345,46 @@ func runRepeat[S ~[]E, E any](e *env[S, E], s S, base int, c Case, out *pbt.Outc
 	e2, back2 := newEnv[S](e.k, n+3, 500)
 	t := back2[1 : n+2]
 	r1, w1, p1 := slices.Chunk(s, size), slices.Windowed(s, size), slices.Pairs(s)
+	kept := func(ctx string) string {
+		if m := e.checkChunks(ctx+"Chunk", base, n, size, r1); m != "" {
+			return m
+		}
+		if m := e.checkWindows(ctx+"Windowed", base, n, size, w1); m != "" {
+			return m
+		}
+		return e.checkPairs(ctx+"Pairs", base, n, p1)
+	}
+	// first half: calls only; then the kept results are looked at; second half: the caller also changes elements of
+	// the first slice in place between the calls (every call must work from the input as it is now); the pairs kept
+	// from the very first call are values and must still be what they were
+	half := reps / 2
+	e0 := &env[S, E]{k: e.k}
 	for r := 0; r < reps; r++ {
+		if r == half {
+			if m := kept(fmt.Sprintf("kept from before %d further calls: ", half)); m != "" {
+				return m
+			}
+			e0.orig = append([]E(nil), e.orig...)
+		}
 		var m string
+		sz := size + r/2%2 // the same slice with two sizes in turn
 		if r%2 == 0 {
-			m, _ = e.some(c.Fn, "", s, base, size)
+			if !e.k.zst && e.orig != nil && n > 0 && r >= half && r%8 == 6 {
+				v := e.k.mk(base + r%n + 9000 + r)
+				s[r%n], e.orig[base+r%n] = v, v
+			}
+			m, _ = e.some(c.Fn, "", s, base, sz)
 		} else {
-			m, _ = e2.some(c.Fn, "independent second slice: ", t, 1, size)
+			m, _ = e2.some(c.Fn, "independent second slice: ", t, 1, sz)
 		}
 		if m != "" {
-			return fmt.Sprintf("repetition %d (of %d, alternating between two slices; all repetitions before gave the right answer): %s", r, reps, m)
+			return fmt.Sprintf("repetition %d (of %d, alternating between two slices and two sizes, from repetition %d on with elements of the first slice changed in place between calls; all repetitions before gave the right answer): %s", r, reps, half, m)
 		}
 	}
-	ctx := fmt.Sprintf("kept from before %d further calls: ", reps)
-	if m := e.checkChunks(ctx+"Chunk", base, n, size, r1); m != "" {
-		return m
-	}
-	if m := e.checkWindows(ctx+"Windowed", base, n, size, w1); m != "" {
-		return m
-	}
-	if m := e.checkPairs(ctx+"Pairs", base, n, p1); m != "" {
-		return m
+	if e0.orig != nil || e.k.zst {
+		if m := e0.checkPairs(fmt.Sprintf("kept from before %d further calls: Pairs", reps), base, n, p1); m != "" {
+			return m
+		}
 	}
 	out.NonTrivial = reps > 1<<16
 	out.Labels = append(out.Labels, sizeClass("repetitions", reps))
@@ -416,6 +432,17 @@ func runWrap[S ~[]E, E any](k *kind[E], c Case, out *pbt.Outcome) (string, int) 
 		return fmt.Sprintf("%s(n=%d,size=%d) repetition %d (of %d on the same slice; all repetitions before gave the right answer): %d pieces, want %d", fn, n, size, r, reps, got, per)
 	}
 	last := n - (per-1)*size // length of the last chunk
+	// ends: the piece has the wanted length and its first and last element are the expected ones (the pieces of this
+	// mode are one or two elements long, or of a zero-size type)
+	ends := func(p S, wl, pos int) bool {
+		if len(p) != wl {
+			return false
+		}
+		if k.zst || wl == 0 {
+			return true
+		}
+		return e.is(p[0], pos) && (wl == 1 || e.is(p[wl-1], pos+wl-1))
+	}
 	switch c.Fn {
 	case "c":
 		cb := func(p S) {
@@ -423,7 +450,7 @@ func runWrap[S ~[]E, E any](k *kind[E], c Case, out *pbt.Outcome) (string, int) 
 			if i == per-1 {
 				wl = last
 			}
-			if bad < 0 && (i >= per || len(p) != wl || e.mismatch(p, i*size, true) >= 0) {
+			if bad < 0 && (i >= per || !ends(p, wl, i*size)) {
 				bad = i
 			}
 			i++
@@ -437,7 +464,7 @@ func runWrap[S ~[]E, E any](k *kind[E], c Case, out *pbt.Outcome) (string, int) 
 		}
 	case "w":
 		cb := func(w S) {
-			if bad < 0 && (i >= per || len(w) != size || e.mismatch(w, i, true) >= 0) {
+			if bad < 0 && (i >= per || !ends(w, size, i)) {
 				bad = i
 			}
 			i++
@@ -471,7 +498,7 @@ func runWrap[S ~[]E, E any](k *kind[E], c Case, out *pbt.Outcome) (string, int) 
 				if j == per-1 {
 					wl = last
 				}
-				if len(ps[j]) != wl || e.mismatch(ps[j], j*size, true) >= 0 {
+				if !ends(ps[j], wl, j*size) {
 					bad = j
 				}
 			}
@@ -483,7 +510,7 @@ func runWrap[S ~[]E, E any](k *kind[E], c Case, out *pbt.Outcome) (string, int) 
 		for r := 0; r < reps; r++ {
 			ws := slices.Windowed(s, size)
 			for j := 0; j < len(ws) && j < per && bad < 0; j++ {
-				if len(ws[j]) != size || e.mismatch(ws[j], j, true) >= 0 {
+				if !ends(ws[j], size, j) {
 					bad = j
 				}
 			}
